@@ -131,6 +131,42 @@ func runC18(c *Ctx) {
 				}
 			}
 			isPop := heapCall("Pop")
+			// the timer whose arm licenses the delivery was armed for THIS candidate: after the pop every
+			// path to a timer arm creates a timer (time.NewTimer), or re-arms one (Reset) that was stopped
+			// and drained (CleanupTimer) since the cancel arm that abandoned the previous candidate -
+			// otherwise a tick left over from an abandoned candidate delivers the next one early
+			{
+				isCallNamed := func(suffix string) func(ast.Node) bool {
+					return func(n ast.Node) bool {
+						cl, ok := n.(*ast.CallExpr)
+						return ok && strings.HasSuffix(exprKey(cl.Fun), suffix)
+					}
+				}
+				isNew, isReset, isCleanup := isCallNamed("time.NewTimer"), isCallNamed(".Reset"), isCallNamed("CleanupTimer")
+				armTargets := map[*cfg.Block]bool{}
+				for _, e := range timerArms {
+					armTargets[e.From.Succs[e.Succ]] = true
+				}
+				bad := false
+				for _, pp := range f.Find(isPop) {
+					if w, found := f.reachBlock(Point{pp.B, pp.I + 1}, &searchOpts{AvoidNode: func(n ast.Node) bool { return isNew(n) || isReset(n) }}, func(b *cfg.Block) bool { return armTargets[b] }); found {
+						bad = true
+						r.Fail("poll/timer-armed-for-candidate", key, f.PosOf(pp), "after popping a candidate a timer arm can be reached without arming a timer for it", w...)
+					}
+				}
+				for _, rp := range f.Find(isReset) {
+					for _, e := range cancelArms {
+						if w, found := f.reach(Point{e.From.Succs[e.Succ], 0}, &searchOpts{AvoidNode: func(n ast.Node) bool { return isCleanup(n) || isNew(n) }}, func(pt Point, atExit bool) bool { return !atExit && f.At(pt, rp) }); found {
+							bad = true
+							r.Fail("poll/timer-armed-for-candidate", key, f.PosOf(rp), "the timer of an abandoned (cancelled) candidate is re-armed with Reset without having been stopped and drained: its old tick, if it fired meanwhile, is taken for the next candidate's and that element is delivered before its time", w...)
+							break
+						}
+					}
+				}
+				if !bad {
+					r.Pass("poll/timer-armed-for-candidate", key, f.P.posStr(f.Body.Pos()), "every candidate gets its own timer (or a stopped and drained one) before its timer arm can fire")
+				}
+			}
 			for i, group := range [][]Edge{cancelArms, cancelPendingT} {
 				name := []string{"cancel arm", "cancel-pending-elements edge"}[i]
 				if len(group) == 0 {
@@ -392,6 +428,15 @@ func checkTaskExecutor(r *Reporter, p *Prog) {
 		r.Fail("taskexec/reschedule-cancels", key, p.posStr(fd.Pos()), "expected a lookup of the identifier and one scheduling call")
 	} else {
 		bad := false
+		// the lookup of the previous element comes first: a replacement that is enqueued before the old
+		// task is cancelled competes with it for a bounded queue (the eviction drops the replacement)
+		if w, found := f.PathFromEntryAvoiding(sched[0], func(n ast.Node) bool {
+			cl, ok := n.(*ast.CallExpr)
+			return ok && strings.HasSuffix(exprKey(cl.Fun), ".queuedElements.Get")
+		}, nil); found {
+			bad = true
+			r.Fail("taskexec/reschedule-cancels", key, f.PosOf(sched[0]), "the new task is scheduled before the previous task of the identifier was looked up and cancelled: with a bounded queue the replacement can be evicted in favour of the task it replaces, which is then cancelled too", w...)
+		}
 		for _, e := range exists {
 			if w, found := f.reach(Point{e.From.Succs[e.Succ], 0}, &searchOpts{AvoidNode: isCancel}, func(pt Point, atExit bool) bool { return !atExit && f.At(pt, sched[0]) }); found {
 				bad = true
